@@ -66,6 +66,9 @@ def gen_bounds(rng, cfg):
         return [lo - 2000, lo - rng.choice([1, 1000.5])]
     if r < 0.74:
         return [hi, hi]               # lb == default ub (boundary of the loadable region)
+    if r < 0.77:
+        # close to, but not equal to, a default bound or zero (a genuine bound: it must come back as it is)
+        return rng.choice([[lo + 5e-7, 0.0], [2e-8, hi + 5e-7], [-3e-9, hi], [0.0, 3e-8]])
     if r < 0.80:
         return [-5.0, -1.0]
     if r < 0.85:
